@@ -365,14 +365,26 @@ def oracle(c, case, r):
             bad.append("not all priorities were attempted although none failed")
         if r["ret"] != (nsolve > 0):
             bad.append("optimize() returned %r after %d successful solves and no failure" % (r["ret"], nsolve))
-    # results: exactly those captured at the last successful priority, never a mixture
-    for name, res in (("after the run", r["final"]), ("during post()", getattr(pr, "at_post", None))):
-        if last_ok is not None:
-            objs, copies = pr.snap[last_ok]
+    # results: exactly the snapshot taken at the LAST priority_completed (read off the hook log itself, so the
+    # clause is judged whatever lies between that hook and the end of the run: removed priorities, a failed
+    # attempt, both), in post() and after optimize(); never the failed attempt's values, never a mixture
+    completed = [e[1] for e in ev if e[0] == "C"]
+    last_c = completed[-1] if completed else None
+    if last_c != last_ok and not bad:
+        bad.append("last priority_completed is %r, last successful solve %r" % (last_c, last_ok))
+    if last_c is not None and last_c in pr.snap:
+        objs, copies = pr.snap[last_c]
+        solves_all = [e for e in ev if e[0] == "X"]
+        for name, res in (("after optimize()", r["final"]), ("inside post()", getattr(pr, "at_post", None))):
             if isinstance(res, str) or res is None:
-                bad.append("extract_results() %s raised although priority %r completed" % (name, last_ok))
-            elif not all(results_equal(f, cp) for f, cp in zip(res, copies)):
-                bad.append("results exposed %s differ from those captured at the last successful priority %r" % (name, last_ok))
+                bad.append("extract_results() %s raised although priority %r completed" % (name, last_c))
+            elif len(res) != len(copies) or not all(results_equal(f, cp) for f, cp in zip(res, copies)):
+                what = "differ from the snapshot taken at the last priority_completed(%r)" % last_c
+                if failed_at is not None and solves_all and not solves_all[-1][2] and len(pr.raw) == len(solves_all) \
+                        and all(results_equal(f, rw) for f, rw in zip(res, pr.raw[-1])):
+                    what = "are the FAILED attempt's values (priority %r), not the snapshot of the last completed priority %r" \
+                        % (failed_at, last_c)
+                bad.append("results exposed %s %s" % (name, what))
     # the snapshot of a completed priority is the raw output of that priority's own solve
     solves = [e for e in ev if e[0] == "X"]
     for k, (_, p, ok) in enumerate(solves):
@@ -432,6 +444,8 @@ def check_instances(c, cases, stream):
             c.hit(stream + "/has-empty-goal")
         if case["skip"]:
             c.hit(stream + "/skip-hook")
+            for pat in sorted(skip_patterns(ev, case["skip"])):
+                c.hit("%s/%s/%s" % (stream, v, pat))
         c.sample(dict(case_out, events=ev, ret=r["ret"]), limit=6)
         oracle(c, case_out, r)
         if outs is None:
@@ -541,7 +555,7 @@ def gen_case(rng, variant=None, nprio=None, script=None):
         pf = rng.choice([0.0, 0.2, 0.35, 0.5])
         script = [rng.random() >= pf for _ in range(k + 1)]
     skip = []
-    if variant != "minabs" and rng.random() < 0.15:
+    if variant != "minabs" and rng.random() < 0.3:
         prios = sorted({int(g["priority"]) for g in goals})
         skip = rng.sample(prios, rng.randint(1, min(2, len(prios))))
     return dict(variant=variant, times=times, p=rng.choice([0.25, 0.5, 1.0]), q=rng.choice([0.0, 1.0]),
@@ -568,6 +582,56 @@ def stream_exhaustive(c, rng, maxn, variants):
                 cases.append(dict(base, script=list(script), skip=[]))
     check_instances(c, cases, "exhaustive")
     return len(cases)
+
+
+def stream_skip(c, rng, sizes, variants, sample=None):
+    """priorities removed in priority_started x solver scripts: for n priorities every non-empty set of
+    skipped priorities and every success/failure script over the remaining ones (completed -> skipped
+    -> failed, skipped first -> ..., everything skipped, ...).  `sample`: cap per (variant, n)."""
+    cases = []
+    for v in variants:
+        for n in sizes:
+            base = gen_case(rng, variant=v, nprio=n, script=[])
+            prios = sorted({int(g["priority"]) for g in base["goals"]})
+            combos = []
+            for k in range(1, n + 1):
+                for sk in itertools.combinations(prios, k):
+                    for script in itertools.product([True, False], repeat=n - k):
+                        combos.append((list(sk), list(script)))
+            if sample is not None and len(combos) > sample:
+                combos = rng.sample(combos, sample)
+            for sk, script in combos:
+                cases.append(dict(base, script=script, skip=sk))
+    check_instances(c, cases, "skip")
+    return len(cases)
+
+
+def skip_patterns(ev, skip):
+    """which of the interesting hook/solver patterns a log contains"""
+    out = set()
+    completed_before = False
+    pending_skip = False  # a skipped priority since the last solve
+    for i, e in enumerate(ev):
+        if e[0] == "S":
+            solved = i + 1 < len(ev) and ev[i + 1][0] == "X"
+            if not solved:
+                pending_skip = True
+                if not completed_before and not any(x[0] == "X" for x in ev[:i]):
+                    out.add("skipped-first")
+        elif e[0] == "X":
+            if pending_skip:
+                if e[2]:
+                    out.add("skipped-then-success")
+                else:
+                    out.add("completed-skipped-failed" if completed_before else "skipped-then-failed-no-completion")
+            pending_skip = False
+        elif e[0] == "C":
+            completed_before = True
+    if pending_skip and completed_before and ev and ev[-2:][0][0] == "S":
+        out.add("completed-then-skipped-last")
+    if not any(e[0] == "X" for e in ev) and any(e[0] == "S" for e in ev):
+        out.add("everything-skipped")
+    return out
 
 
 def run(c):
@@ -599,6 +663,14 @@ def run(c):
         n = stream_exhaustive(c, rng, 3, ("multi", "single"))
         c.exhaustive = False
         c.notes.append("all 2^n success/failure scripts for n = 1..3 priorities, both variants: %d runs; " % n)
+    if c.big:
+        ns = stream_skip(c, rng, (1, 2, 3, 4, 5), ("multi",))
+        ns += stream_skip(c, rng, (2, 3, 4), ("single",))
+    else:
+        ns = stream_skip(c, rng, (1, 2, 3, 4), ("multi",))
+        ns += stream_skip(c, rng, (3,), ("single",), sample=10)
+    c.notes.append("skip_priority stream: every non-empty set of removed priorities x every script over the remaining "
+                   "ones (%d runs; complete for n <= %d priorities in the multi-pass variant); " % (ns, 5 if c.big else 4))
     check_instances(c, [gen_case(rng) for _ in range(c.n(120, 3000))], "random")
     c.programs = c.evaluations
     c.notes.append("the unbounded claim (any goal set, any outcome oracle) is carried by the theorems.")
